@@ -56,6 +56,15 @@ class Inputs:
                 add(L.to1x(d['text'], rng.choice(['1.0', '1.1']), rng), 'legacy', permissive=True)
             except Exception:
                 pass
+        # twins: the same document with one units defined differently (x = 3 u): what a service remembers by NAME from one
+        # model must not leak into the next
+        self.twins = []
+        for udef in ('<unit units="second"/>', '<unit units="metre"/>', '<unit units="volt" prefix="milli"/>', '<unit units="second" exponent="-1"/>'):
+            self.twins.append(len(self.docs))
+            add('<?xml version="1.0" encoding="UTF-8"?>\n<model xmlns="http://www.cellml.org/cellml/2.0#" xmlns:cellml="http://www.cellml.org/cellml/2.0#" name="twin">\n'
+                '  <units name="u">%s</units>\n  <component name="c">\n    <variable name="x" units="u"/>\n    <variable name="y" units="u" initial_value="1"/>\n'
+                '    <math xmlns="http://www.w3.org/1998/Math/MathML">\n      <apply><eq/><ci>x</ci><apply><plus/><ci>y</ci><cn cellml:units="u">3</cn></apply></apply>\n    </math>\n  </component>\n</model>\n' % udef,
+                'system', analysable=True)
         self.worlds = []
         for i in range(max(2, n // 3)):
             md = MO.gen(rng)
@@ -159,6 +168,14 @@ def run(chk, replay=None):
                         prefix.insert(rng.randrange(len(prefix) + 1), (kk, target[1]))
             plan = [(s, 0) for s in prefix] + [(target, 0), (target, 0), (target, 1)]
             shared = {} if rng.random() < 0.7 else None
+            if trial % 4 == 1:
+                # twins: one service instance meets two models that differ in the definition of one units
+                i0, i1 = rng.sample(inp.twins, 2)
+                kind = rng.choice(['analyse', 'analyse', 'validate', 'print', 'generate'])
+                target = (kind, i1)
+                prefix = [random_step() for _ in range(rng.randint(0, 2))] + [(kind, i0)] + [random_step() for _ in range(rng.randint(0, 2))]
+                plan = [(s_, 0) for s_ in prefix] + [(target, 0), (target, 0), (target, 1)]
+                shared = {} if rng.random() < 0.5 else None
             if trial % 4 == 0:
                 # the same model object analysed under two configurations and generated with one generator
                 systems = [k for k, d in enumerate(inp.docs) if d['kind'] == 'system']
